@@ -24,7 +24,9 @@ def $function_name(*args, **kwargs):
     """
     case,arg = 0,0
     for na,a in enumerate(args):
-        if hasattr(a.__class__, '$function_name'):
+        # (plain numpy arrays and scalars go to the numpy function, not to the
+        # ndarray method of the same name, whose signature differs)
+        if not isinstance(a, (numpy.ndarray, numpy.generic)) and hasattr(a.__class__, '$function_name'):
             case = 1
             arg  = na
             break
@@ -40,7 +42,9 @@ def $function_name(*args, **kwargs):
 ''')
 
 for function_name in numpy_linalg_function_names:
-    exec(function_template.substitute(function_name=function_name, namespace='numpy.linalg'))
+    # (transpose is a function of numpy itself, not of numpy.linalg)
+    exec(function_template.substitute(function_name=function_name,
+        namespace='numpy' if function_name == 'transpose' else 'numpy.linalg'))
 
 for function_name in scipy_linalg_function_names:
     exec(function_template.substitute(function_name=function_name, namespace='scipy.linalg'))
